@@ -18,7 +18,11 @@ CFG = {
             "replace) and random byte strings; (5) requests whose stage-by-stage fate the generator knows "
             "(script), incl. the panicking handler alone and among pipelined requests; (6) sequences of up to 50 "
             "faults with valid traffic on two other keep-alive connections; (7) plain bytes, aborted and garbage "
-            "handshakes against the TLS listener. After every fault (and every sequence) a well-formed request on a "
+            "handshakes against the TLS listener; (8) tls-stalled-handshake: one or several peers send a prefix of a "
+            "ClientHello (0, 1, 3, 5, 6, 11, 40 ... bytes; every prefix in thorough) and stay connected while the "
+            "listener is probed; (9) accept(2) made to fail with EMFILE while a connection waits in the listen "
+            "queue. After every TLS-port fault a complete TLS handshake (rustls client) + GET /health on a fresh "
+            "connection must give 200 within 5 s, besides the plain-bytes liveness probe. After every fault (and every sequence) a well-formed request on a "
             "fresh connection must get 200 within 5 s. The raw bytes the server sent on the faulty connection are "
             "judged in Coq. 'malformed' is decided by the generator only for requests that are certainly malformed "
             "(RFC 7230 syntax of the head, Content-Length/chunk syntax on body-reading endpoints, dropshot-level "
@@ -33,7 +37,7 @@ CFG = {
         "HTTP response' (sanity: render/parse round-trip theorem, fuel sufficiency theorem, examples)",
         "for script cases the generator's claim of what hyper parses from the bytes it built and of what each "
         "dropshot stage decides (checked against the implementation: a wrong claim shows as a divergence)",
-        "the harness's raw TCP client (std::net + setsockopt(SO_LINGER) via libc) and its classification of how a "
+        "rustls / tokio-rustls as the harness's TLS client; the harness's raw TCP client (std::net + setsockopt(SO_LINGER) via libc) and its classification of how a "
         "connection ended (EOF / client left or reset / still open at the deadline)",
     ],
     "assumptions": [
@@ -44,8 +48,9 @@ CFG = {
         "stream is not HTTP",
         "timing-dependent outcomes (answered vs closed silently after a half-close or abort) are classified, not "
         "asserted; exact statuses are compared with the model only for script cases, read with a 5 s deadline",
-        "the harness has no TLS client: liveness of the TLS acceptor = a new connection is accepted and plain "
-        "bytes on it are answered by an alert/close within 5 s",
+        "TLS listener health = a full handshake by a tokio-rustls client that does not verify the (self-signed) "
+        "certificate, then GET /health -> 200 within 5 s; additionally a new connection sending plain bytes is "
+        "answered by an alert/close within 5 s",
         "accept(2) errors (EMFILE, ECONNABORTED) cannot be injected from outside: the accept-loop theorem is tied "
         "to the code only by reading (HttpAcceptor::accept) and by RST-before-accept / connect-only faults",
     ],
